@@ -50,16 +50,23 @@ inductive Obj where
   | junk                               -- anything else: `None` inside a container, an int, a str
   deriving DecidableEq, Repr, Inhabited
 
-abbrev Heap := Id → Obj
+/-- Identity ↦ object, as an association list; an identity that does not occur
+is `junk`.  (A concrete structure rather than a function so that the model runs
+in time linear in the history.) -/
+abbrev Heap := List (Id × Obj)
 
-def Heap.upd (h : Heap) (i : Id) (o : Obj) : Heap := fun j => if j = i then o else h j
+def Heap.get : Heap → Id → Obj
+  | [], _ => .junk
+  | (j, o) :: h, i => if j = i then o else Heap.get h i
+
+def Heap.upd (h : Heap) (i : Id) (o : Obj) : Heap := (i, o) :: h.filter (fun p => p.1 != i)
 
 /-- A value handed from one observer to the next: an identity, or `none` for a
 value that is neither a HasTraits instance nor an observable container. -/
 abbrev W := Option Id
 
 def Heap.at (h : Heap) : W → Obj
-  | some i => h i
+  | some i => h.get i
   | none => .junk
 
 /-! Reserved trait names (the harness uses the same numbering). -/
@@ -97,7 +104,7 @@ containers by contents. -/
 def valEq (h : Heap) : Val → Val → Bool
   | .ref i, .ref j =>
     i == j ||
-    (match h i, h j with
+    (match h.get i, h.get j with
      | .list a, .list b => a == b
      | .dict a, .dict b => a.length == b.length && a.all (fun kv => b.contains kv)
      | .set a, .set b => a.length == b.length && a.all (fun x => b.contains x)
